@@ -1,4 +1,4 @@
-import PikaVerif.Lemmas.CV2
+import PikaVerif.Lemmas.CV3
 /-!
 # C07 — Condition variables never lose a notification
 
@@ -62,35 +62,6 @@ theorem C07_release_window_locked (s : St) (hr : Reachable s) (w : Nat)
   exact ⟨hi.lockHolder w (by simp [hp, holds]), rfl⟩
 
 /-! ## notify_one / notify_all -/
-
-theorem popCore_effect (s s' : St) (t z g : Nat) (d : Bool) (pcT : Pc)
-    (h : popCore s t z g d pcT = some s') :
-    (∃ rest, s.queue = g :: rest ∧ s'.queue = rest) ∧
-    s'.waiting = upd s.waiting g false ∧ s'.poppedOp g = true ∧ s'.pops = upd s.pops g (s.pops g + 1) ∧
-    (∃ p', setPopped (s.pc g) = some p') ∧
-    ((d = false ∧ s'.tok g = s.tok g + 1) ∨ (d = true ∧ s.pc g = .slp false ∧ s'.tok = s.tok)) ∧
-    s'.enqs = s.enqs := by
-  unfold popCore at h
-  split at h
-  case h_2 => simp at h
-  rename_i g' rest hq
-  split at h
-  case isFalse => simp at h
-  rename_i hsz
-  obtain ⟨hsz, hgg⟩ := hsz
-  subst hgg
-  split at h
-  case h_2 => simp at h
-  rename_i p' hp'
-  split at h
-  case isFalse => simp at h
-  rename_i hdrop
-  simp only [Option.some.injEq] at h
-  subst h
-  refine ⟨⟨rest, hq, rfl⟩, rfl, by simp [upd], rfl, ⟨p', hp'⟩, ?_, rfl⟩
-  cases d with
-  | false => left; simp [upd]
-  | true => right; simp at hdrop; simp [hdrop]
 
 /-- **notify_one wakes exactly one waiter if any exist.**  When `notify_one` pops (event
     `cv.pop` + `resume`), the target `g` is the *front* of the queue, was waiting (had
@@ -195,6 +166,60 @@ theorem C07_notify_all_pops_waiter (s s' : St) (hr : Reachable s) (u z g : Nat) 
   rcases htok with h | h
   · exact Or.inl h.2
   · exact Or.inr h.2.1
+
+/-- **notify_all wakes every waiter (trace form).**  Take any reachable state in which
+    `notify_all` by `u` starts its critical work (`cv.all`), any thread `w` that is waiting
+    at that moment (released the user lock in a wait, not yet woken), and any continuation
+    of the execution up to the `sl.rel` with which this `notify_all` leaves its critical
+    section: the continuation contains the event "u pops and resumes w". -/
+theorem C07_notify_all_wakes_each (s s1 s2 s3 : St) (hr : Reachable s) (u w z : Nat) (log : List Ev)
+    (h1 : step s (.cvAll u z) = some s1) (hw : s.waiting w = true)
+    (h2 : runLog step s1 log = some s2) (hnr : ∀ e ∈ log, e ≠ .slRel u)
+    (h3 : step s2 (.slRel u) = some s3) :
+    ∃ z' d, Ev.popAll u z' w d ∈ log := by
+  obtain ⟨n, f, l0, hl0⟩ := hr
+  have hr1 : runLog step (init n f) (l0 ++ [.cvAll u z]) = some s1 := by
+    rw [runLog_append, hl0]; simp [runLog, h1]
+  -- facts at s1
+  have hs1 : s1.waiting w = true ∧ s1.lock = some u ∧ s1.pc u = .nAll := by
+    simp only [step] at h1
+    split at h1
+    case isFalse => simp at h1
+    rename_i hg
+    split at h1
+    case h_2 => simp at h1
+    simp only [Option.some.injEq] at h1
+    subst h1
+    exact ⟨hw, hg.2.1, by simp [upd]⟩
+  -- induction along the continuation
+  have main : ∀ (log : List Ev) (l1 : List Ev) (sa : St), runLog step (init n f) l1 = some sa →
+      sa.waiting w = true ∧ sa.lock = some u ∧ sa.pc u = .nAll →
+      runLog step sa log = some s2 → (∀ e ∈ log, e ≠ .slRel u) →
+      ∃ z' d, Ev.popAll u z' w d ∈ log := by
+    intro log
+    induction log with
+    | nil =>
+      intro l1 sa hra hsa hrun _
+      simp at hrun
+      subst hrun
+      have := C07_notify_all_wakes_all sa s3 (show Reachable sa from ⟨n, f, l1, hra⟩) u hsa.2.2 h3 w
+      rw [hsa.1] at this
+      simp at this
+    | cons e es ih =>
+      intro l1 sa hra hsa hrun hno
+      simp only [runLog] at hrun
+      cases hs : step sa e with
+      | none => simp [hs] at hrun
+      | some sb =>
+        simp only [hs] at hrun
+        have hia := (inv2_of_accepted hra).1
+        rcases nall_step sa sb hia e u w hsa.2.1 hsa.2.2 hsa.1 (hno e (by simp)) hs with ⟨z', d, he⟩ | hsb
+        · exact ⟨z', d, by simp [he]⟩
+        · have hrb : runLog step (init n f) (l1 ++ [e]) = some sb := by
+            rw [runLog_append, hra]; simp [runLog, hs]
+          obtain ⟨z', d, hm⟩ := ih (l1 ++ [e]) sb hrb hsb hrun (fun e' he' => hno e' (by simp [he']))
+          exact ⟨z', d, by simp [hm]⟩
+  exact main log _ s1 hr1 hs1 h2 hnr
 
 /-! ## No lost notification: progress and quiescence -/
 
